@@ -261,6 +261,8 @@ func (t *Term) render() string {
 		return "closure:" + t.Fn.Name()
 	case "rtype":
 		return "rtype(" + t.Name + ")"
+	case "ctx":
+		return fmt.Sprintf("ctx@%d(%s)", t.ID, t.Args[0].String())
 	case "rvalue":
 		return "rvalue(" + t.Args[0].String() + ")"
 	case "tuple":
